@@ -219,6 +219,38 @@ func Run(r *ev.Run) {
 		}
 	}
 
+	// ---- not accepted + HelloRetryRequest from the backend + a second hello that repeats the (GREASE / undecryptable) ECH
+	// extension: still pure pass-through in both directions ----
+	for _, extIdx := range []int{8, 9} {
+		for ksi := range ks {
+			c := helloCase{Version: 0x0303, SID: 32, Exts: []int{0, 2, extIdx}, KeySet: ksi}
+			first := c.build().Record()
+			second := c.build()
+			second.Random = tlsref.DetBytes("c05-second", 32)
+			secondRec := second.Record()
+			hrr := echx.HRRRecord(tlsref.DetBytes("sid", 32))
+			replay := map[string]any{"case": c, "first": echx.Hex(first), "second": echx.Hex(secondRec)}
+			sess, err, p := echx.OpenSession(first, ks[ksi])
+			oc := "hrr-passthrough"
+			switch {
+			case p != nil || err != nil:
+				r.Violation("valid-hello-refused:hrr-family", fmt.Sprintf("NewConn: err=%v panic=%v", err, p), replay)
+			default:
+				got1, e1, _ := sess.ReadOnce()
+				n, e2, _ := sess.BackendSend(hrr)
+				got2, e3, p3 := sess.ClientSend(secondRec)
+				if e1 != nil || e2 != nil || n != len(hrr) || !bytes.Equal(got1[3:], first[3:]) || !bytes.Equal(sess.T.OutBytes(), hrr) {
+					r.Violation("bytes-modified:hrr-family:first-flight", fmt.Sprintf("first hello / HelloRetryRequest not passed through: %v %v", e1, e2), replay)
+				}
+				if p3 != nil || e3 != nil || !bytes.Equal(got2, secondRec) {
+					oc = "hrr-second-hello-touched"
+					r.Violation("bytes-modified:hrr-family:second-hello", fmt.Sprintf("after a HelloRetryRequest the second hello of a connection whose ECH was NOT accepted was not passed through verbatim: err=%v panic=%v got %d bytes, sent %d; client transport got %x", e3, p3, len(got2), len(secondRec), sess.T.OutBytes()[len(hrr):]), replay)
+				}
+			}
+			r.Eval(string(first)+fmt.Sprint("hrr", ksi), oc)
+		}
+	}
+
 	// ---- following streams ----
 	recPool := [][]byte{
 		tlsref.Record(20, 0x0303, []byte{1}),
